@@ -7,7 +7,9 @@
 (*     den  : every length below is an integer multiple of (lattice unit)/den                             *)
 (*     k    : the lattice unit is 10^k metres            (changed only by Rescale)                        *)
 (*     ea   : excitations are multiplied by 10^ea        (changed only by ScaleExc)                       *)
-(*     srcs : sequence of [cls, geo, rep, exc, path]; path = non-empty sequence of poses [p, r],          *)
+(*     srcs : sequence of [cls, geo, rep, ops, flip, exc, path]; path = non-empty sequence of poses [p, r], *)
+(*            rep = how the object is constructed, ops = what was done to the live object afterwards     *)
+(*            ("use", "mesh", "tricoll", "check", "reorient"), flip = faces handed over with inverted winding *)
 (*            p in Z^3 (units 1/den), r one of the 24 rotation matrices of the cube                       *)
 (*     obs  : sequence of [x, lab]: observer points (global positions, or pixel positions in the sensor   *)
 (*            frame when sens.on) with a palette label                                                    *)
@@ -73,7 +75,7 @@ Splice(s, i, n, ins) == SubSeq(s, 1, i - 1) \o ins \o SubSeq(s, i + n, Len(s))  
 \* ================================================================== configurations
 Pose(p, r) == [p |-> p, r |-> r]
 PoseAt(path, i) == path[IF i <= Len(path) THEN i ELSE Len(path)]     \* shorter paths are padded with their last pose
-Src(cls, geo, exc, path) == [cls |-> cls, geo |-> geo, rep |-> "", exc |-> exc, path |-> path]
+Src(cls, geo, exc, path) == [cls |-> cls, geo |-> geo, rep |-> "", ops |-> <<>>, flip |-> <<>>, exc |-> exc, path |-> path]
 Obs(x, lab) == [x |-> x, lab |-> lab]
 NoSensor == [on |-> FALSE, path |-> <<Pose(Zero3, IdM)>>]
 Cfg(den, srcs, obs, sens) == [den |-> den, k |-> 0, ea |-> 0, srcs |-> srcs, obs |-> obs, sens |-> sens]
@@ -179,8 +181,16 @@ ConvexMesh(geo) ==
                                     dc == Sgn(Dot3(nrm, Sub3(S, Scale3(n, t[1]))))
                                 IN dc # 0 /\ \A v \in 1..n : dc * Dot3(nrm, Sub3(V3(geo[1][v]), t[1])) >= 0
 OutsideBBox(s, x) == \E j \in 1..3 : 2 * x[j] < BBox2(s)[1][j] \/ 2 * x[j] > BBox2(s)[2][j]
-\* "in" / "on" / "out" of a local point x (units 1/den) for a source; for sheets, wires and points "on" means: on the
-\* carrier plane / line / point (observers must avoid these sets), otherwise "out"
+\* x lies on the closed triangle t (a sheet): in its plane and not strictly outside any edge.  In the plane every (q-p) x (x-p) is
+\* parallel to the normal n: the side is read off one non-zero component of n (no products of large numbers: 32-bit integers)
+OnTriangle(t, x) ==
+  LET n == Cross3(Sub3(t[2], t[1]), Sub3(t[3], t[1]))
+      k == CHOOSE k \in 1..3 : n[k] # 0
+      side(p, q) == Sgn(Cross3(Sub3(q, p), Sub3(x, p))[k]) * Sgn(n[k])
+  IN Dot3(n, Sub3(x, t[1])) = 0 /\ side(t[1], t[2]) >= 0 /\ side(t[2], t[3]) >= 0 /\ side(t[3], t[1]) >= 0
+\* "in" / "on" / "out" of a local point x (units 1/den) for a source; for sheets "on" means on the closed triangle, for wires and
+\* points on the carrier line / point (observers must avoid these sets), otherwise "out".  A point on the straight extension of
+\* an edge or on the extension of a face plane OUTSIDE the body is "out": the laws hold there too
 Status(s, x) ==
   IF FarOut(s, x) /\ s.cls \notin {"Triangle", "TriangleCollection", "Polyline"} THEN "out"
   ELSE CASE s.cls = "Cuboid" -> Comb({Cls(2 * Abs(x[j]) - s.geo[j]) : j \in 1..3})
@@ -194,10 +204,8 @@ Status(s, x) ==
     [] s.cls = "TriangularMesh" -> IF Len(s.geo[2]) = 0 THEN HullCls(s.geo[1], x)
                                    ELSE IF ConvexMesh(s.geo) THEN ConvexMeshCls(s.geo, x)
                                    ELSE IF OutsideBBox(s, x) THEN "out" ELSE "on"       \* not decided here: observers must stay outside the box
-    [] s.cls = "Triangle" -> IF Det3(Sub3(s.geo[2], s.geo[1]), Sub3(s.geo[3], s.geo[1]), Sub3(x, s.geo[1])) = 0 THEN "on" ELSE "out"
-    [] s.cls = "TriangleCollection" ->
-         IF \E i \in 1..Len(s.geo[2]) : LET t == TriPts(s.geo, i) IN Det3(Sub3(t[2], t[1]), Sub3(t[3], t[1]), Sub3(x, t[1])) = 0
-         THEN "on" ELSE "out"
+    [] s.cls = "Triangle" -> IF OnTriangle(s.geo, x) THEN "on" ELSE "out"
+    [] s.cls = "TriangleCollection" -> IF \E i \in 1..Len(s.geo[2]) : OnTriangle(TriPts(s.geo, i), x) THEN "on" ELSE "out"
     [] s.cls \in {"Circle", "Polygon"} -> IF x[3] = 0 /\ 4 * (x[1] * x[1] + x[2] * x[2]) <= s.geo[1] * s.geo[1] /\ s.cls = "Polygon" THEN "on"
                                           ELSE IF x[3] = 0 /\ 4 * (x[1] * x[1] + x[2] * x[2]) = s.geo[1] * s.geo[1] THEN "on" ELSE "out"
     [] s.cls = "Polyline" -> IF \E i \in 1..(Len(s.geo) - 1) : Cross3(Sub3(s.geo[i + 1], s.geo[i]), Sub3(x, s.geo[i])) = Zero3 THEN "on" ELSE "out"
@@ -230,7 +238,17 @@ GeoOK(s) ==
     [] s.cls = "Dipole" -> Len(s.geo) \in {0, 1}
     [] s.cls = "Custom" -> TRUE
     [] OTHER -> FALSE
-SrcOK(s) == /\ s.cls \in Classes /\ GeoOK(s) /\ Len(s.path) >= 1
+\* what can be done to a live TriangularMesh after construction: "use" = a field evaluation, "mesh" = reading .mesh, "tricoll" =
+\* to_TriangleCollection(), "check" = check_open / check_disconnected / check_selfintersecting, "reorient" = reorient_faces()
+OpNames == {"use", "mesh", "tricoll", "check", "reorient"}
+IsMeshy(s) == s.cls \in {"TriangularMesh", "TriangleCollection"}
+\* geo always lists the faces with outward winding; the faces in `flip` are handed to the constructor inverted.  The object
+\* describes the body once it has been normalised: by the constructor (every rep but "ctor_skip") or by a later reorient_faces()
+DescribesBody(s) == ~IsMeshy(s) \/ Len(s.flip) = 0 \/ s.rep # "ctor_skip" \/ "reorient" \in SeqRange(s.ops)
+HistoryOK(s) == /\ SeqRange(s.ops) \subseteq OpNames
+                /\ (~IsMeshy(s) => Len(s.ops) = 0 /\ Len(s.flip) = 0)
+                /\ (IsMeshy(s) => SeqRange(s.flip) \subseteq 1..Len(s.geo[2]))
+SrcOK(s) == /\ s.cls \in Classes /\ GeoOK(s) /\ Len(s.path) >= 1 /\ HistoryOK(s) /\ DescribesBody(s)
             /\ \A i \in 1..Len(s.path) : M3(s.path[i].r) \in Rots
             /\ Len(s.exc) = (IF s.cls \in Currents THEN 1 ELSE 3)
 WellFormed(cfg) == /\ cfg.den > 0 /\ cfg.k \in -9..9 /\ cfg.ea \in -12..12
@@ -247,8 +265,11 @@ ObsOff(cfg) == \A j \in 1..Len(cfg.obs) : ObsOK(cfg, cfg.obs[j])
 \* observer classes of the palettes: the label tells the truth about inside / outside / far (30..300 sizes);
 \* "gen" and "close" (close to a sheet or wire) promise nothing beyond ObsOK
 InLabs == {"deep_in", "face_in"}
-OutLabs == {"face_out", "edge", "edge_ext", "far", "out"}       \* edge_ext: close to the straight extension of an edge
-Labels == InLabs \cup OutLabs \cup {"gen", "close"}
+\* edge_ext: close to the straight extension of an edge; ext_edge / ext_face: exactly ON the straight extension of an edge /
+\* on the extension of a face plane of a Cuboid, outside the body; in_one: strictly inside exactly one of several sources
+OutLabs == {"face_out", "edge", "edge_ext", "ext_edge", "ext_face", "far", "out"}
+Labels == InLabs \cup OutLabs \cup {"gen", "close", "in_one"}
+OnPlanes(src, x) == Cardinality({j \in 1..3 : 2 * Abs(x[j]) = src.geo[j]})
 LabelOK(cfg, o) == o.lab \in Labels /\ \A s \in 1..Len(cfg.srcs) : \A i \in 1..PathLen(cfg) :
     LET src == cfg.srcs[s]
         x == Local(cfg, src, o, i)
@@ -257,7 +278,15 @@ LabelOK(cfg, o) == o.lab \in Labels /\ \A s \in 1..Len(cfg.srcs) : \A i \in 1..P
        /\ (o.lab \in OutLabs => st = "out")
        /\ (o.lab = "far" /\ src.cls \notin {"Dipole", "Custom"} => BeyondSizes(src, x, 30) /\ WithinSizes(src, x, 300))
        /\ (o.lab # "far" => WithinSizes(src, x, 10))
-LabelsOK(cfg) == \A j \in 1..Len(cfg.obs) : LabelOK(cfg, cfg.obs[j])
+       /\ (o.lab = "ext_edge" /\ src.cls = "Cuboid" => OnPlanes(src, x) = 2)
+       /\ (o.lab = "ext_face" /\ src.cls = "Cuboid" => OnPlanes(src, x) = 1)
+InOneOK(cfg, o) == o.lab = "in_one" => \A i \in 1..PathLen(cfg) :
+    LET st(s) == Status(cfg.srcs[s], Local(cfg, cfg.srcs[s], o, i)) IN
+    /\ Cardinality({s \in 1..Len(cfg.srcs) : st(s) = "in"}) = 1 /\ \A s \in 1..Len(cfg.srcs) : st(s) \in {"in", "out"}
+    \* distinguishing: seen from the body that contains it, the point is outside the SHAPE of every other body
+    /\ LET w == CHOOSE s \in 1..Len(cfg.srcs) : st(s) = "in" IN
+       \A u \in 1..Len(cfg.srcs) : u # w => Status(cfg.srcs[u], Local(cfg, cfg.srcs[w], o, i)) = "out"
+LabelsOK(cfg) == \A j \in 1..Len(cfg.obs) : LabelOK(cfg, cfg.obs[j]) /\ InOneOK(cfg, cfg.obs[j])
 \* distance class of observer j in a configuration: near iff within 10 sizes of every source at every path index
 NearIn(cfg, j) == \A s \in 1..Len(cfg.srcs) : \A i \in 1..PathLen(cfg) : WithinSizes(cfg.srcs[s], Local(cfg, cfg.srcs[s], cfg.obs[j], i), 10)
 DistClass(pre, post, j) == IF NearIn(pre, j) /\ NearIn(post, j) THEN "near" ELSE "far"
@@ -278,7 +307,7 @@ ScaleExcF(cfg, a, m) == [cfg EXCEPT !.ea = @ + a,
 
 \* a part of source s: same orientation at every path index, position shifted by the body-frame offset `off`
 PartPath(path, off) == [i \in 1..Len(path) |-> Pose(Add3(V3(path[i].p), MulMV(M3(path[i].r), off)), M3(path[i].r))]
-Part(s, cls, geo, off) == [cls |-> cls, geo |-> geo, rep |-> "", exc |-> s.exc, path |-> PartPath(s.path, off)]
+Part(s, cls, geo, off) == [cls |-> cls, geo |-> geo, rep |-> "", ops |-> <<>>, flip |-> <<>>, exc |-> s.exc, path |-> PartPath(s.path, off)]
 Axis3(j, v) == <<IF j = 1 THEN v ELSE 0, IF j = 2 THEN v ELSE 0, IF j = 3 THEN v ELSE 0>>
 
 \* Split a Cuboid by the plane at distance `cut` from its low face along `axis` (dim and cut even: centres stay integer)
@@ -312,23 +341,28 @@ EvenBox(s) == s.cls = "Cuboid" /\ \A j \in 1..3 : s.geo[j] % 2 = 0
 IsBoxMesh(s) == s.cls = "TriangularMesh" /\ Len(s.geo[2]) > 0 /\ ClosedOriented(SoupOf(s)) /\ SoupVol6(SoupOf(s)) > 0
 
 Reps == {"Mesh", "MeshHull", "Tetra5", "Tetra6", "Sheets", "TriColl", "FromTriangles", "FromMesh", "FullSeg", "Dipole", "Polygon"}
+\* "MeshLate" (act.ops = history): the 12-face mesh is built UN-normalised (reorient_faces skipped, the faces LateFlip inverted), the
+\* live object is used / inspected, normalised by reorient_faces(), possibly used again - and only then compared
+LateFlip == <<2, 5, 6, 10>>
 ConvertOK(s, rep) ==
-  CASE rep \in {"Mesh", "MeshHull", "Tetra5", "Tetra6", "Sheets"} -> EvenBox(s)
+  CASE rep \in {"Mesh", "MeshLate", "MeshHull", "Tetra5", "Tetra6", "Sheets"} -> EvenBox(s)
     [] rep \in {"TriColl", "FromTriangles", "FromMesh"} -> IsBoxMesh(s)
     [] rep = "FullSeg" -> s.cls = "Cylinder" /\ s.geo[1] % 2 = 0
     [] rep = "Dipole" -> s.cls = "Sphere"
     [] rep = "Polygon" -> s.cls = "Circle"
     [] OTHER -> FALSE
-ConvertParts(s, rep) ==
-  LET C == Corners(s.geo) IN
+ConvertParts(s, act) ==
+  LET C == Corners(s.geo)
+      rep == act.rep IN
   CASE rep = "Mesh" -> <<[Part(s, "TriangularMesh", <<C, BoxFaces>>, Zero3) EXCEPT !.rep = "ctor"]>>
+    [] rep = "MeshLate" -> <<[Part(s, "TriangularMesh", <<C, BoxFaces>>, Zero3) EXCEPT !.rep = "ctor_skip", !.flip = LateFlip, !.ops = act.ops]>>
     [] rep = "MeshHull" -> <<[Part(s, "TriangularMesh", <<C, <<>>>>, Zero3) EXCEPT !.rep = "from_ConvexHull"]>>
     [] rep = "Tetra5" -> [n \in 1..5 |-> Part(s, "Tetrahedron", [m \in 1..4 |-> C[Tetra5[n][m]]], Zero3)]
     [] rep = "Tetra6" -> [n \in 1..6 |-> Part(s, "Tetrahedron", [m \in 1..4 |-> C[Tetra6[n][m]]], Zero3)]
     [] rep = "Sheets" -> [n \in 1..12 |-> Part(s, "Triangle", [m \in 1..3 |-> C[BoxFaces[n][m]]], Zero3)]
     [] rep = "TriColl" -> <<[s EXCEPT !.cls = "TriangleCollection", !.rep = "to_TriangleCollection"]>>
-    [] rep = "FromTriangles" -> <<[s EXCEPT !.rep = "from_triangles"]>>
-    [] rep = "FromMesh" -> <<[s EXCEPT !.rep = "from_mesh"]>>
+    [] rep = "FromTriangles" -> <<[s EXCEPT !.rep = "from_triangles", !.ops = <<>>, !.flip = <<>>]>>      \* a new object from the triangles
+    [] rep = "FromMesh" -> <<[s EXCEPT !.rep = "from_mesh", !.ops = <<>>, !.flip = <<>>]>>
     [] rep = "FullSeg" -> <<Part(s, "CylinderSegment", <<0, s.geo[1] \div 2, s.geo[2], 0, 24>>, Zero3)>>
     [] rep = "Dipole" -> <<Part(s, "Dipole", s.geo, Zero3)>>
     [] rep = "Polygon" -> <<Part(s, "Polygon", <<s.geo[1], 16>>, Zero3)>>
@@ -353,6 +387,7 @@ Merged(a, b) ==
 
 \* act records: [name |-> "RigidMove", g, t] [name |-> "Rescale", k] [name |-> "ScaleExc", a, m]
 \*              [name |-> "Split", i, axis, cut] [name |-> "SplitSeg", i, kind, cut] [name |-> "Convert", i, rep] [name |-> "Merge", i]
+\*              [name |-> "Convert", i, rep |-> "MeshLate", ops] [name |-> "Op", i, op] (something is done to the live mesh object)
 \*              [name |-> "Reconcretize"] (the abstract configuration does not change; the concretization does)
 EnabledAct(cfg, act) ==
   CASE act.name = "RigidMove" -> M3(act.g) \in Rots
@@ -360,7 +395,10 @@ EnabledAct(cfg, act) ==
     [] act.name = "ScaleExc" -> cfg.ea + act.a \in -12..12 /\ act.m \in {1, -1} /\ ~(act.a = 0 /\ act.m = 1)
     [] act.name = "Split" -> act.i \in 1..Len(cfg.srcs) /\ SplitOK(cfg.srcs[act.i], act.axis, act.cut)
     [] act.name = "SplitSeg" -> act.i \in 1..Len(cfg.srcs) /\ SplitSegOK(cfg.srcs[act.i], act.kind, act.cut)
-    [] act.name = "Convert" -> act.i \in 1..Len(cfg.srcs) /\ ConvertOK(cfg.srcs[act.i], act.rep)
+    [] act.name = "Convert" -> /\ act.i \in 1..Len(cfg.srcs) /\ ConvertOK(cfg.srcs[act.i], act.rep)
+                               /\ (act.rep = "MeshLate" => SeqRange(act.ops) \subseteq OpNames /\ "reorient" \in SeqRange(act.ops))
+    [] act.name = "Op" -> /\ act.i \in 1..Len(cfg.srcs) /\ cfg.srcs[act.i].cls = "TriangularMesh" /\ act.op \in OpNames
+                          /\ Len(cfg.srcs[act.i].ops) < 4
     [] act.name = "Merge" -> act.i \in 1..(Len(cfg.srcs) - 1) /\ MergeOK(cfg.srcs[act.i], cfg.srcs[act.i + 1])
     [] act.name = "Reconcretize" -> TRUE
     [] OTHER -> FALSE
@@ -370,14 +408,15 @@ ApplyF(cfg, act) ==
     [] act.name = "ScaleExc" -> ScaleExcF(cfg, act.a, act.m)
     [] act.name = "Split" -> [cfg EXCEPT !.srcs = Splice(@, act.i, 1, SplitParts(@[act.i], act.axis, act.cut))]
     [] act.name = "SplitSeg" -> [cfg EXCEPT !.srcs = Splice(@, act.i, 1, SplitSegParts(@[act.i], act.kind, act.cut))]
-    [] act.name = "Convert" -> [cfg EXCEPT !.srcs = Splice(@, act.i, 1, ConvertParts(@[act.i], act.rep))]
+    [] act.name = "Convert" -> [cfg EXCEPT !.srcs = Splice(@, act.i, 1, ConvertParts(@[act.i], act))]
+    [] act.name = "Op" -> [cfg EXCEPT !.srcs[act.i].ops = Append(@, act.op)]
     [] act.name = "Merge" -> [cfg EXCEPT !.srcs = Splice(@, act.i, 2, <<Merged(@[act.i], @[act.i + 1])>>)]
     [] act.name = "Reconcretize" -> cfg
 
 \* ================================================================== exact premises (declarative)
 SameFrame(pre, post) == post.den = pre.den /\ post.k = pre.k /\ post.ea = pre.ea
 SameObs(pre, post) == post.obs = pre.obs /\ post.sens = pre.sens
-SameBody(a, b) == a.cls = b.cls /\ a.geo = b.geo /\ a.rep = b.rep /\ a.exc = b.exc /\ Len(a.path) = Len(b.path)
+SameBody(a, b) == a.cls = b.cls /\ a.geo = b.geo /\ a.rep = b.rep /\ a.ops = b.ops /\ a.flip = b.flip /\ a.exc = b.exc /\ Len(a.path) = Len(b.path)
 
 \* --- C03: post is pre moved by (g, t): every pose of every path, the sensor path, the observer points
 LocalInvariant(pre, post) ==
@@ -489,9 +528,16 @@ NewCount(pre, post) == Len(post.srcs) - Len(pre.srcs) + 1
 PremiseReplace(pre, act, post) ==
   /\ Replaces(pre, post, act.i, NewCount(pre, post))
   /\ SameBodyAs(pre.srcs[act.i], SubSeq(post.srcs, act.i, act.i + NewCount(pre, post) - 1))
+  /\ (act.name = "Convert" /\ act.rep = "MeshLate" =>
+        post.srcs[act.i].rep = "ctor_skip" /\ post.srcs[act.i].ops = act.ops /\ Len(post.srcs[act.i].flip) > 0)
   \* the sphere/dipole identity holds outside the sphere only
   /\ (act.name = "Convert" /\ act.rep = "Dipole" =>
         \A j \in 1..Len(pre.obs) : \A i \in 1..PathLen(pre) : InsideClass(pre, act.i, j, i) = "out")
+\* something is done to the live object of source i, which described the body before and describes it afterwards
+PremiseOp(pre, act, post) ==
+  /\ act.i \in 1..Len(pre.srcs) /\ act.op \in OpNames /\ pre.srcs[act.i].cls = "TriangularMesh"
+  /\ post = [pre EXCEPT !.srcs[act.i].ops = Append(@, act.op)]
+  /\ DescribesBody(pre.srcs[act.i]) /\ DescribesBody(post.srcs[act.i])
 PremiseMerge(pre, act, post) ==
   /\ Replaces(post, pre, act.i, 2)
   /\ SameBodyAs(post.srcs[act.i], SubSeq(pre.srcs, act.i, act.i + 1))
@@ -503,11 +549,12 @@ Premise(pre, act, post) ==
        [] act.name = "ScaleExc" -> PremiseScaleExc(pre, act, post)
        [] act.name \in {"Split", "SplitSeg", "Convert"} -> PremiseReplace(pre, act, post)
        [] act.name = "Merge" -> PremiseMerge(pre, act, post)
+       [] act.name = "Op" -> PremiseOp(pre, act, post)
        [] act.name = "Reconcretize" -> post = pre
        [] OTHER -> FALSE
 
 \* which fields a step makes a claim about
-Claims(act) == IF act.name \in {"Split", "SplitSeg", "Merge"} THEN {"B", "H"}
+Claims(act) == IF act.name \in {"Split", "SplitSeg", "Merge", "Op"} THEN {"B", "H"}
                ELSE IF act.name = "Convert" THEN (IF act.rep \in {"Sheets", "TriColl"} THEN {"H"} ELSE {"B", "H"})
                ELSE {"B", "H", "J"}
 
